@@ -65,6 +65,37 @@ Proof.
     destruct (IH _ H2 n) as [J1 [J2 J3]]. repeat split; intros; auto.
 Qed.
 
+(* ---------- later operations on the state left by an interrupted backup ---------- *)
+(* a later backup (complete or again interrupted anywhere) on the state left by a backup that was
+   interrupted anywhere keeps all present snapshots closed under the index *)
+Theorem backup_rerun_safe tr1 tr2 S n1 :
+  SnapsOk S -> ok_backup S tr1 = true -> ok_backup (brun S (firstn n1 tr1)) tr2 = true ->
+  forall n2, SnapsOk (brun (brun S (firstn n1 tr1)) (firstn n2 tr2)).
+Proof.
+  intros H0 H1 H2 n2. apply backup_prefix_safe; [apply backup_prefix_safe; assumption | exact H2].
+Qed.
+
+(* the blobs needed by the present snapshots = what prune must keep *)
+Definition used_of (S : state) : list N := flat_map (fun sn => snd sn) (snaps S).
+
+Lemma snaps_ok_consistent S : SnapsOk S -> Consistent (repo_of S) (used_of S).
+Proof.
+  intros H h Hh. unfold used_of in Hh. apply in_flat_map in Hh as [[s needs] [Hin Hn]]. cbn [snd] in Hn.
+  eapply H; eassumption.
+Qed.
+
+(* a prune (any valid plan, any trace with the structure of Execute, interrupted anywhere) on the state
+   left by a backup that was interrupted anywhere never loses a blob needed by a present snapshot *)
+Theorem prune_after_interrupted_backup_safe tr S n1 pl ptr :
+  SnapsOk S -> ok_backup S tr = true ->
+  let S1 := brun S (firstn n1 tr) in
+  valid_planb (repo_of S1) (used_of S1) pl = true -> run_ok pl PhA (repo_of S1) ptr = true ->
+  forall n2, Consistent (run (repo_of S1) (firstn n2 ptr)) (used_of S1).
+Proof.
+  intros H0 H1 S1 Hv Hr n2. apply prune_prefix_safe with (pl := pl); [|exact Hv|exact Hr].
+  apply snaps_ok_consistent. apply backup_prefix_safe; assumption.
+Qed.
+
 Lemma check_trace_sound S0 tr : check_case (CTrace S0 tr) = 0%nat ->
   forall n, SnapsOk (brun S0 (firstn n tr)).
 Proof.
